@@ -79,6 +79,14 @@ func famCraft(n int, cmds ...string) SeqModel {
 		CraftN: n, CraftTasks: 3, CraftEpics: 2}
 }
 
+// hand-merged logs (the events of a pruned item in every order)
+func famMerged(n int, cmds ...string) SeqModel {
+	m := famCraft(n, cmds...)
+	m.Name, m.CraftMerged, m.MaxTasks, m.MaxEpics = "merged", true, 4, 0
+	m.Extras = []string{"badid"}
+	return m
+}
+
 func famLegacy(n int, cmds ...string) SeqModel {
 	m := famCraft(n, cmds...)
 	m.Name, m.CraftLegacy = "legacy", true
@@ -134,8 +142,11 @@ func init() {
 			Ideal: famIds(2, 1, 5), IdealDeep: famIds(3, 1, 6), IdealProps: []string{"P_C09"}, IdealInvs: []string{"CodePruneIsSpecPrune"}, Probes: append(append([]emitted{}, probeReissue...), probeAfterPrune...),
 			Proc:     &ProcCheck{Prop: "C09", Scenarios: "PruneScenarios", IdealInvs: []string{"Serializable"}, Only: []string{"C09_serial"}},
 			GenQuick: famIds(2, 1, 4), GenThorough: famIds(2, 1, 6), SampleQuick: 100,
-			CraftQuick: famCraft(1200, "prune", "prune_dry"), CraftThorough: famCraft(8000, "prune", "prune_dry"),
-			Sim: famIds(3, 2, 12), SimNumQuick: 60, SimNumThorough: 2000}
+			CraftQuick: famCraft(600, "prune", "prune_dry"), CraftThorough: famCraft(8000, "prune", "prune_dry"),
+			// hand-merged logs: a pruned item's create/update/link/tombstone events in every order
+			Craft2Quick:    famMerged(80, "sequence", "compact", "reads"),
+			Craft2Thorough: famMerged(2500, "sequence", "sequence_rm", "set", "compact", "reads", "claim"),
+			Sim:            famIds(3, 2, 12), SimNumQuick: 60, SimNumThorough: 2000}
 	}
 	registry["C10"] = func() Check {
 		return &SeqCheck{Prop: "C10",
